@@ -412,31 +412,44 @@ theorem init_acct (kind : Kind) (sameTok : Bool) (dsc perBlock : Nat) (produce :
   ⟨rfl, rfl, rfl, fun _ => rfl, fun _ => rfl⟩
 
 theorem step_acct {s s' : St} {op : Op} {o : Out} (hA : Acct s) (h : step s op = some (s', o)) : Acct s' := by
-  cases op <;> simp only [step] at h
+  cases op <;> simp only [step, known] at h
   case enter c oo a e =>
+    split at h <;> [skip; exact absurd h (by simp)]
     simp only [enterFarm, Option.bind_eq_bind, Option.bind_eq_some_iff] at h
     obtain ⟨_, _, h⟩ := h
     exact enterCore_acct hA h
   case enterOB c u a e =>
+    split at h <;> [skip; exact absurd h (by simp)]
     simp only [enterFarmOnBehalf, Option.bind_eq_bind, Option.bind_eq_some_iff] at h
     obtain ⟨_, _, _, _, h⟩ := h
     exact enterCore_acct hA h
   case claim c oo p =>
+    split at h <;> [skip; exact absurd h (by simp)]
     simp only [claimRewards, Option.bind_eq_bind, Option.bind_eq_some_iff] at h
     obtain ⟨_, _, h⟩ := h
     exact claimCore_acct hA (by intro hh; cases hh) h
   case claimOB c p =>
+    split at h <;> [skip; exact absurd h (by simp)]
     simp only [claimRewardsOnBehalf, Option.bind_eq_bind, Option.bind_eq_some_iff] at h
     obtain ⟨_, _, _, _, _, _, h⟩ := h
     exact claimCore_acct hA (by intro hh; cases hh) h
   case compound c oo p =>
+    split at h <;> [skip; exact absurd h (by simp)]
     simp only [compoundRewards, Option.bind_eq_bind, Option.bind_eq_some_iff, req_eq_some] at h
     obtain ⟨_, hk, _, _, h⟩ := h
     exact claimCore_acct hA (fun _ => hk) h
-  case exit c oo n a => exact exitFarm_acct hA h
-  case merge c oo p => exact mergeFarmTokens_acct hA h
-  case claimBoosted c u => exact claimBoostedRewards_acct hA h
+  case exit c oo n a =>
+    split at h <;> [skip; exact absurd h (by simp)]
+    exact exitFarm_acct hA h
+  case merge c oo p =>
+    split at h <;> [skip; exact absurd h (by simp)]
+    exact mergeFarmTokens_acct hA h
+  case claimBoosted c u =>
+    split at h <;> [skip; exact absurd h (by simp)]
+    exact claimBoostedRewards_acct hA h
   case transfer a b n x =>
+    split at h <;> [skip; exact absurd h (by simp)]
+    split at h <;> [skip; exact absurd h (by simp)]
     simp only [noOut, Option.map_eq_some_iff, Prod.mk.injEq] at h
     obtain ⟨s1, h1, rfl, _⟩ := h
     simp only [transfer, Option.bind_eq_bind, Option.bind_eq_some_iff, req_eq_some, sub?_eq_some,
